@@ -908,6 +908,34 @@ Section VSQSProofs.
     - apply vsqs_update_fixed_ok; auto. unfold vsqs_build. rewrite (somes_all _ _ Hnd). apply layout_length.
     - apply vsqs_update_fixed_size; auto.
   Qed.
+
+  (* ---- source-selected variants ---- *)
+  Variable gbv : T -> C -> V.
+  Hypothesis Hrelv : forall t c, R (gbv t c) (gu t c).
+
+  Lemma vsqs_update_src_fixed (c : cfg) v th :
+    vsqs_update_src T C V gu true true c v th = vsqs_update_fixed T C V gu c v th.
+  Proof.
+    unfold vsqs_update_src, vsqs_update_fixed. destruct (length th =? vsqs_n_var_params C c); reflexivity.
+  Qed.
+  Lemma map_rel X (f g : X -> V) (L : list X) : (forall x, R (f x) (g x)) -> Forall2 R (map f L) (map g L).
+  Proof. intros H. induction L; simpl; constructor; auto. Qed.
+
+  (* the full statement for the code as it is now (build emits every gate; size test; offsets from n_ref):
+     no hypothesis on the parameter values any more *)
+  Theorem vsqs_src_full (c : cfg) (pre : list V) th0 th d :
+    (length th = vsqs_n_var_params C c ->
+       vsqs_update_src T C V gu true true c (pre ++ vsqs_build_src T C V gb gbv false c th0 d) th
+       = Ok (pre ++ vsqs_layout T C c gu th d))
+    /\ (length th <> vsqs_n_var_params C c ->
+       vsqs_update_src T C V gu true true c (pre ++ vsqs_build_src T C V gb gbv false c th0 d) th = Err ValueError)
+    /\ Forall2 R (vsqs_build_src T C V gb gbv false c th d) (vsqs_layout T C c gu th d).
+  Proof.
+    unfold vsqs_build_src. split; [|split].
+    - intros Hth. rewrite vsqs_update_src_fixed. apply vsqs_update_fixed_ok; auto. apply layout_length.
+    - intros Hth. rewrite vsqs_update_src_fixed. apply vsqs_update_fixed_size; auto.
+    - rewrite (layout_map _ c gbv), (layout_map _ c gu). apply map_rel. intros [t x]; simpl; auto.
+  Qed.
 End VSQSProofs.
 
 (* ================================================================================================ *)
